@@ -14,7 +14,10 @@ def generate(rng, tier):
     cases = []
     fixed = ["-foo-1.0", "--1.0nb2", "--x-y-3", "-1.0", "a-", "mktool-1.3.2nb2", "mktool-1.3.2nb", "mktool-1.3-2", "mktool", "1.0nb2", "", "-", "--", "a-", "-1", "nb-nb", "a-nb1nb2", "a-1nb+5", "a-1nb-5",
              "a-1nb99999999999999999999", "a-1nb007", "a-1nbnb3", "a-1nnb4", "é-1nb2", "a-1NB3", "a-1nb3x", "a-nb", "foo-bar-1.0nb12",
-             "mysql-client-5.7.44nb1", "py-setuptools-68.0nb1", "a-b-c-1", "libnbcompat-20230904", "nbpatch-1.0", "café-1", "日本-1.22", "é-1", "ab-é", "éé-12"]
+             "mysql-client-5.7.44nb1", "py-setuptools-68.0nb1", "a-b-c-1", "libnbcompat-20230904", "nbpatch-1.0", "café-1", "日本-1.22", "é-1", "ab-é", "éé-12",
+             # a base or a version that is nothing but white space (ASCII or Unicode) is still a base / a version
+             "foo-\u2028", "foo- ", "foo-\t", " -1.0", "\u3000-1.0", "\u0085-\u00a0", "foo-\u00a0nb2", " - ", "foo-\x0b", "foo-1.0 ", " foo-1.0",
+             "pkg-1nb2nb", "mktool-1nb3alpha2nb", "pkg-1nb" + "9" * 25, "a" * 300 + "-1.0", "p-" + "1." * 200 + "0nb7"]
     names = list(fixed)
     for _ in range(n):
         parts = [rng.choice(["", "a", "foo", "nb", "py39", "é", "1.0", "x11nb3"]) for _ in range(rng.randint(0, 3))]
